@@ -27,7 +27,7 @@ theorem HsSh.length {bp H : Nat} {l l' : Option (List Handler)} (x : HsSh bp H l
   · rfl
   · exact x.length_eq
 
-variable {bp k d H N : Nat} {a : Int}
+variable {T0 : State} {bp k d H N : Nat} {a : Int}
 
 theorem FrameSh.lastHandler {f g : Frame} (x : FrameSh bp H f g) :
     (lastHandler f = none ∧ lastHandler g = none) ∨
@@ -70,16 +70,16 @@ theorem FrameSh.hasHandler {f g : Frame} (x : FrameSh bp H f g) : hasHandler f =
 
 /-! ### updating the current frame -/
 
-theorem Sh.framesSizeS {s t : State} (h : Sh bp k d H N a s t) : d < s.frames.size := by
+theorem Sh.framesSizeS {s t : State} (h : Sh T0 bp k d H N a s t) : d < s.frames.size := by
   rw [h.shapeS.frames]; have := h.kLt; omega
 
-theorem Sh.framesSizeT {s t : State} (h : Sh bp k d H N a s t) : k + d < t.frames.size := by
+theorem Sh.framesSizeT {s t : State} (h : Sh T0 bp k d H N a s t) : k + d < t.frames.size := by
   rw [h.shapeT.frames]; exact h.kLt
 
 /-- corresponding updates of the two current frames that keep the base pointer -/
 theorem sh_setCurFrame (F G : Frame → Frame) (H' : Nat)
     (hFG : ∀ f g, FrameSh bp H f g → FrameSh bp H' (F f) (G g)) (hH : H ≤ H') (hbp : ∀ f, (F f).bp = f.bp) :
-    RelS (Sh bp k d H N a) (PQ (fun _ _ => True) (Sh bp k d H' N a)) (setCurFrame F) (setCurFrame G) := by
+    RelS (Sh T0 bp k d H N a) (PQ (fun _ _ => True) (Sh T0 bp k d H' N a)) (setCurFrame F) (setCurFrame G) := by
   intro s t h x s' y t' h1 h2
   have e1 : exec (setCurFrame F) s = (.ok (), { s with frames := s.frames.modify s.curFrame F }) := rfl
   have e2 : exec (setCurFrame G) t = (.ok (), { t with frames := t.frames.modify t.curFrame G }) := rfl
@@ -91,7 +91,14 @@ theorem sh_setCurFrame (F G : Frame → Frame) (H' : Nat)
   have hsT := h.shapeT.frames
   have hk := h.kLt
   refine ⟨trivial, { h with shapeS := ⟨h.shapeS.stack, by simp [hsS]⟩, shapeT := ⟨h.shapeT.stack, by simp [hsT]⟩,
-                            frames := ?_, ips := ?_, bp0 := ?_, bpPos := ?_ }⟩
+                            frames := ?_, ips := ?_, bp0 := ?_, bpPos := ?_, lowF := ?_ }⟩
+  rotate_right
+  · intro j hj
+    show (t.frames.modify t.curFrame G)[j]! = T0.frames[j]!
+    rw [getElem!_modify, h.curT]
+    have c : ¬ (k + d = j ∧ j < t.frames.size) := fun c => by omega
+    rw [if_neg c]
+    exact h.lowF j hj
   · intro j hj
     show FrameSh bp H' ((s.frames.modify s.curFrame F)[j]!) ((t.frames.modify t.curFrame G)[k + j]!)
     rw [getElem!_modify, getElem!_modify, h.curS, h.curT, hsS, hsT]
@@ -121,7 +128,7 @@ theorem sh_setCurFrame (F G : Frame → Frame) (H' : Nat)
 /-! ### `clearDown` -/
 
 theorem sh_clearDown (hi lo : Int) (hiN : hi ≤ N) :
-    RelS (Sh bp k d H N a) (PQ (fun _ _ => True) (Sh bp k d H N a)) (clearDown hi lo) (clearDown (hi + bp) (lo + bp)) := by
+    RelS (Sh T0 bp k d H N a) (PQ (fun _ _ => True) (Sh T0 bp k d H N a)) (clearDown hi lo) (clearDown (hi + bp) (lo + bp)) := by
   unfold clearDown
   have e : (hi + (bp : Int) - (lo + (bp : Int)) + 1).toNat = (hi - lo + 1).toNat := by omega
   simp only [e]
@@ -152,14 +159,21 @@ theorem exec_searchFrames_succ (n : Nat) (s : State) : exec (searchFrames (n + 1
       rfl
 
 /-- clearing function and free variables of corresponding frames -/
-theorem Sh.clearFrame {s t : State} (h : Sh bp k d H N a s t) (n : Nat) (hn : n ≤ d) :
-    Sh bp k d H N a { s with frames := s.frames.modify n fun f => { f with free := none, fn := none } }
+theorem Sh.clearFrame {s t : State} (h : Sh T0 bp k d H N a s t) (n : Nat) (hn : n ≤ d) :
+    Sh T0 bp k d H N a { s with frames := s.frames.modify n fun f => { f with free := none, fn := none } }
       { t with frames := t.frames.modify (k + n) fun f => { f with free := none, fn := none } } := by
   have hsS := h.shapeS.frames
   have hsT := h.shapeT.frames
   have hk := h.kLt
   refine { h with shapeS := ⟨h.shapeS.stack, by simp [hsS]⟩, shapeT := ⟨h.shapeT.stack, by simp [hsT]⟩,
-                  frames := ?_, ips := ?_, bp0 := ?_, bpPos := ?_ }
+                  frames := ?_, ips := ?_, bp0 := ?_, bpPos := ?_, lowF := ?_ }
+  rotate_right
+  · intro j hj
+    show (t.frames.modify (k + n) _)[j]! = T0.frames[j]!
+    rw [getElem!_modify]
+    have c : ¬ (k + n = j ∧ j < t.frames.size) := fun c => by omega
+    rw [if_neg c]
+    exact h.lowF j hj
   · intro j hj
     show FrameSh bp H ((s.frames.modify n _)[j]!) ((t.frames.modify (k + n) _)[k + j]!)
     rw [getElem!_modify, getElem!_modify, hsS, hsT]
@@ -187,10 +201,10 @@ theorem Sh.clearFrame {s t : State} (h : Sh bp k d H N a s t) (n : Nat) (hn : n 
     downwards in the parent: a handler found in frame `i` of the child is found in frame `k + i` of the
     parent; when the child finds none, the parent has cleared the same frames and goes on with the frames
     below `k` -/
-theorem sh_searchFrames (j : Nat) (hj : j ≤ d) : ∀ (s t : State), Sh bp k d H N a s t →
+theorem sh_searchFrames (j : Nat) (hj : j ≤ d) : ∀ (s t : State), Sh T0 bp k d H N a s t →
     ∀ r s', exec (searchFrames j) s = (.ok r, s') →
-      (∃ i t', r = some i ∧ i < j ∧ exec (searchFrames (k + j)) t = (.ok (some (k + i)), t') ∧ Sh bp k d H N a s' t') ∨
-      (r = none ∧ ∃ u, exec (searchFrames (k + j)) t = exec (searchFrames k) u ∧ Sh bp k d H N a s' u) := by
+      (∃ i t', r = some i ∧ i < j ∧ exec (searchFrames (k + j)) t = (.ok (some (k + i)), t') ∧ Sh T0 bp k d H N a s' t') ∨
+      (r = none ∧ ∃ u, exec (searchFrames (k + j)) t = exec (searchFrames k) u ∧ Sh T0 bp k d H N a s' u) := by
   induction j with
   | zero =>
     intro s t h r s' h1
@@ -228,14 +242,15 @@ theorem sh_searchFrames (j : Nat) (hj : j ≤ d) : ∀ (s t : State), Sh bp k d 
     took the error (both continue, related, at the depth of the handling frame); or there is none: the child
     returns `e`, the parent's `throw` ended as the search below frame `k` ends from a state `u` that agrees
     with the child on heap, globals and module cache -/
-def ThrowQ (bp k : Nat) (e : Addr) (r r' : Option Addr) (s t : State) : Prop :=
-  (r = none ∧ r' = none ∧ ∃ d, ShB bp k d s t) ∨
+def ThrowQ (T0 : State) (bp k : Nat) (e : Addr) (r r' : Option Addr) (s t : State) : Prop :=
+  (r = none ∧ r' = none ∧ ∃ d, ShB T0 bp k d s t) ∨
   (r = some e ∧ s.err = none ∧ ∃ n u, u.heap = s.heap ∧ u.globals = s.globals ∧ u.modules = s.modules ∧ u.err = none ∧
+      (∀ j : Nat, j < k → u.frames[j]! = T0.frames[j]!) ∧ (∀ i : Nat, i + 1 < bp → u.stack[i]! = T0.stack[i]!) ∧
       exec (throwBelow n k e) u = (.ok r', t))
 
 /-- making an outer frame `i` of the invoked function current on both sides -/
-theorem Sh.toOuter {s t : State} (h : Sh bp k d H N a s t) (i : Nat) (hi : i < d) :
-    Sh bp k i H N a { s with frameIndex := ((i : Nat) : Int) + 1, curFrame := ((i : Nat) : Int).toNat }
+theorem Sh.toOuter {s t : State} (h : Sh T0 bp k d H N a s t) (i : Nat) (hi : i < d) :
+    Sh T0 bp k i H N a { s with frameIndex := ((i : Nat) : Int) + 1, curFrame := ((i : Nat) : Int).toNat }
       { t with frameIndex := ((k + i : Nat) : Int) + 1, curFrame := ((k + i : Nat) : Int).toNat } := by
   have hk := h.kLt
   exact { h with curS := by show ((i : Nat) : Int).toNat = i; omega, curT := by show ((k + i : Nat) : Int).toNat = k + i; omega, fiS := rfl, fiT := by show ((k + i : Nat) : Int) + 1 = _; omega,
@@ -249,9 +264,9 @@ macro_rules | `(tactic| sht) => `(tactic| repeat (first
   | sh1))
 
 theorem sh_handle (e : Addr) (n n' : Nat)
-    (ih : ∀ (n' d H N : Nat) (a : Int), a ≤ N → H ≤ N → RelS (Sh bp k d H N a) (ThrowQ bp k e) (throwF n e) (throwF n' e))
+    (ih : ∀ (n' d H N : Nat) (a : Int), a ≤ N → H ≤ N → RelS (Sh T0 bp k d H N a) (ThrowQ T0 bp k e) (throwF n e) (throwF n' e))
     (ha : a ≤ N) (hH : H ≤ N) :
-    RelS (Sh bp k d H N a) (ThrowQ bp k e) (throwF.handle n e) (throwF.handle n' e) := by
+    RelS (Sh T0 bp k d H N a) (ThrowQ T0 bp k e) (throwF.handle n e) (throwF.handle n' e) := by
   unfold throwF.handle
   refine RelS.bindV (sh_setCurFrame _ _ H (fun f g x => x.setLast _ _ (fun p q hpq => { hpq with err := rfl }) (Nat.le_refl _))
     (Nat.le_refl _) (fun f => by unfold VM.setLast; split <;> rfl)) ?_
@@ -310,18 +325,18 @@ theorem exec_throwBelow (n j : Nat) (e : Addr) (s : State) : exec (throwBelow n 
       rfl
 
 theorem sh_throwResume (e : Addr) (n n' i : Nat) (hi : i < d)
-    (ih : ∀ (n' d H N : Nat) (a : Int), a ≤ N → H ≤ N → RelS (Sh bp k d H N a) (ThrowQ bp k e) (throwF n e) (throwF n' e))
+    (ih : ∀ (n' d H N : Nat) (a : Int), a ≤ N → H ≤ N → RelS (Sh T0 bp k d H N a) (ThrowQ T0 bp k e) (throwF n e) (throwF n' e))
     (ha : a ≤ N) (hH : H ≤ N) :
-    RelS (Sh bp k d H N a) (ThrowQ bp k e) (throwResume n i e) (throwResume n' (k + i) e) := by
+    RelS (Sh T0 bp k d H N a) (ThrowQ T0 bp k e) (throwResume n i e) (throwResume n' (k + i) e) := by
   unfold throwResume
-  refine RelS.bind (Q := fun _ _ s t => Sh bp k i H N a s t ∧ (s.frames[i]!).ip = (t.frames[k + i]!).ip) ?_ ?_
+  refine RelS.bind (Q := fun _ _ s t => Sh T0 bp k i H N a s t ∧ (s.frames[i]!).ip = (t.frames[k + i]!).ip) ?_ ?_
   · intro s t h x s' y t' h1 h2
     simp only [exec_modS, Prod.mk.injEq, Except.ok.injEq] at h1 h2
     obtain ⟨_, rfl⟩ := h1
     obtain ⟨_, rfl⟩ := h2
     exact ⟨h.toOuter i hi, h.ips i hi⟩
   · intro _ _
-    refine RelS.bind (Q := fun f g s t => (FrameSh bp H f g ∧ f.ip = g.ip) ∧ Sh bp k i H N a s t) ?_ ?_
+    refine RelS.bind (Q := fun f g s t => (FrameSh bp H f g ∧ f.ip = g.ip) ∧ Sh T0 bp k i H N a s t) ?_ ?_
     · intro s t h f s' g t' h1 h2
       have e1 : exec curFrame s = (.ok (s.frames[s.curFrame]!), s) := rfl
       have e2 : exec curFrame t = (.ok (t.frames[t.curFrame]!), t) := rfl
@@ -344,9 +359,9 @@ theorem sh_throwResume (e : Addr) (n n' i : Nat) (hi : i < d)
         exact sh_handle e n n' ih ha hH
 
 theorem sh_throwBelow (e : Addr) (n n' : Nat)
-    (ih : ∀ (n' d H N : Nat) (a : Int), a ≤ N → H ≤ N → RelS (Sh bp k d H N a) (ThrowQ bp k e) (throwF n e) (throwF n' e))
+    (ih : ∀ (n' d H N : Nat) (a : Int), a ≤ N → H ≤ N → RelS (Sh T0 bp k d H N a) (ThrowQ T0 bp k e) (throwF n e) (throwF n' e))
     (ha : a ≤ N) (hH : H ≤ N) :
-    RelS (Sh bp k d H N a) (ThrowQ bp k e) (throwBelow n d e) (throwBelow n' (k + d) e) := by
+    RelS (Sh T0 bp k d H N a) (ThrowQ T0 bp k e) (throwBelow n d e) (throwBelow n' (k + d) e) := by
   intro s t h r s' r' t' h1 h2
   rw [exec_throwBelow] at h1 h2
   rcases e1 : exec (searchFrames d) s with ⟨r1, s1⟩
@@ -360,14 +375,14 @@ theorem sh_throwBelow (e : Addr) (n n' : Nat)
       exact sh_throwResume e n n' i hi ih ha hH s1 t1 hs1 r s' r' t' h1 h2
     · simp only [Prod.mk.injEq, Except.ok.injEq] at h1
       obtain ⟨rfl, rfl⟩ := h1
-      refine Or.inr ⟨rfl, hs1.errS, n', u, hs1.heap.symm, hs1.globals.symm, hs1.modules.symm, hs1.errT, ?_⟩
+      refine Or.inr ⟨rfl, hs1.errS, n', u, hs1.heap.symm, hs1.globals.symm, hs1.modules.symm, hs1.errT, hs1.lowF, hs1.lowS, ?_⟩
       rw [exec_throwBelow, ← e2]
       exact h2
 
 /-- **throw.**  `vm.throw(e)` from `Sh`-related states, with any fuels (the model's `throwFuel` counts all
     frames, so child and parent get different ones; running out of it is `unsupported`: not compared) -/
 theorem sh_throwF (e : Addr) : ∀ (n n' d H N : Nat) (a : Int), a ≤ N → H ≤ N →
-    RelS (Sh bp k d H N a) (ThrowQ bp k e) (throwF n e) (throwF n' e) := by
+    RelS (Sh T0 bp k d H N a) (ThrowQ T0 bp k e) (throwF n e) (throwF n' e) := by
   intro n
   induction n with
   | zero =>
@@ -404,16 +419,16 @@ def finishThrow (r : Option Addr) : M Ctl :=
   | some a => do modS (fun s => { s with err := some (.rt a) }); pure .ret
 
 theorem sh_finishThrow (e : Addr) (r r' : Option Addr) :
-    RelS (ThrowQ bp k e r r') (PostC bp k) (finishThrow r) (finishThrow r') := by
+    RelS (ThrowQ T0 bp k e r r') (PostC T0 bp k) (finishThrow r) (finishThrow r') := by
   intro s t h c s' c' t' h1 h2
-  rcases h with ⟨rfl, rfl, hsh⟩ | ⟨rfl, herr, n, u, hu1, hu2, hu3, hu4, hu5⟩
+  rcases h with ⟨rfl, rfl, hsh⟩ | ⟨rfl, herr, n, u, hu1, hu2, hu3, hu4, hu6, hu7, hu5⟩
   · simp only [finishThrow, exec_pure, Prod.mk.injEq, Except.ok.injEq] at h1 h2
     obtain ⟨rfl, rfl⟩ := h1
     obtain ⟨rfl, rfl⟩ := h2
     exact Or.inl ⟨rfl, rfl, hsh⟩
   · simp only [finishThrow, exec_bind, exec_modS, exec_pure, Prod.mk.injEq, Except.ok.injEq] at h1
     obtain ⟨rfl, rfl⟩ := h1
-    refine Or.inr (Or.inl ⟨rfl, e, rfl, n, u, hu1, hu2, hu3, hu4, ?_⟩)
+    refine Or.inr (Or.inl ⟨rfl, e, rfl, n, u, hu1, hu2, hu3, hu4, hu6, hu7, ?_⟩)
     unfold escBelow
     rw [exec_bind, hu5]
     exact h2
@@ -435,7 +450,7 @@ def throwNow (e : Addr) : M Ctl := do
   finishThrow r
 
 theorem sh_throwNow (e : Addr) (ha : a ≤ N) (hH : H ≤ N) :
-    RelS (Sh bp k d H N a) (PostC bp k) (throwNow e) (throwNow e) := by
+    RelS (Sh T0 bp k d H N a) (PostC T0 bp k) (throwNow e) (throwNow e) := by
   unfold throwNow
   refine RelS.bind sh_throwFuel ?_
   intro n n'
@@ -454,7 +469,7 @@ theorem failWith_eq (e : OpErr) : failWith e = (rtErrOfOpErr e >>= throwNow) := 
 /-- **failWith.**  An uGO error raised by an instruction: caught in the invoked function's frame or
     above it on both sides, or leaving it (`PostC`, second case) -/
 theorem sh_failWith (e : OpErr) (ha : a ≤ N) (hH : H ≤ N) :
-    RelS (Sh bp k d H N a) (PostC bp k) (failWith e) (failWith e) := by
+    RelS (Sh T0 bp k d H N a) (PostC T0 bp k) (failWith e) (failWith e) := by
   rw [failWith_eq]
   refine RelS.bindV (sh_foot (foot_rtErrOfOpErr e)) ?_
   intro ra _ h
